@@ -4,6 +4,7 @@ EP-THREAD  whenever a node evaluates several sub-expressions to build one result
            evaluation receives bindings derived from the earlier result
 EP-NEG     a result flagged false is a falsifying assignment (needed by the generic negation)
 EP-FILTER  only true results of the conditions reach the evaluation of the selected variables
+EP-UNIVERSAL  the universal quantifier evaluates its condition for every value the quantified expression produces
 First-order correctness over arbitrary query shapes x data is not decided (it needs an oracle
 evaluator - a different technique).
 """
@@ -27,7 +28,10 @@ EXPLANATION = (
     "EP-NEG: for every operator that inherits the generic negation (Not flips each child result), an emission that can be "
     "flagged false must carry bindings derived from the operand evaluations that make it false - both operands for a "
     "disjunction, at least the deciding one for a conjunction. EP-FILTER: the stream of condition results that feeds the "
-    "selected variables passes a truth filter. These are necessary conditions of soundness and row consistency."
+    "selected variables passes a truth filter. EP-UNIVERSAL: in ForAll._evaluate__ every path through one iteration of the loop "
+    "over the quantified expression's results reaches a call that (through self calls) evaluates the condition - an iteration "
+    "that can return to the loop head without it lets a row through whose condition was never checked for that value. "
+    "These are necessary conditions of soundness and row consistency."
 )
 ASSUMPTIONS = [
     "a child's result bindings extend the bindings it was evaluated with (checked per class by the same rules)",
@@ -116,9 +120,17 @@ def negatable_operators(prog: Program) -> List[ClassInfo]:
         if not prog.is_subclass(c.qual, lbo) or prog.is_subclass(c.qual, sel):
             continue
         inv = prog.lookup(c.qual, "_invert_")
-        if inv is generic:
+        if inv is generic or _returns_not_self(inv):
             out.append(c)
     return out
+
+
+def _returns_not_self(inv) -> bool:
+    """some branch of this negation wraps the operator itself in Not: the generic negation, with its demands on false results"""
+    for n in ast.walk(inv.node):
+        if isinstance(n, ast.Call) and isinstance(n.func, ast.Name) and n.func.id == "Not" and len(n.args) == 1 and isinstance(n.args[0], ast.Name) and n.args[0].id == "self":
+            return True
+    return False
 
 
 def ep_neg(prog: Program) -> RuleResult:
@@ -154,9 +166,190 @@ def ep_neg(prog: Program) -> RuleResult:
     return r
 
 
+# operator pairs that are exact complements on *every* pair of operands; < / >= and > / <= are not (partial orders: sets by
+# inclusion, NaN, classes with partial comparisons: both not(a < b) and not(a >= b) can hold)
+EXACT_COMPLEMENTS = {("eq", "ne"), ("ne", "eq"), ("contains", "not_contains"), ("not_contains", "contains"),
+                     ("is_", "is_not"), ("is_not", "is_")}
+
+
+class _Uninterpretable(Exception):
+    pass
+
+
+class _Bypass(Exception):
+    pass
+
+
+def _formula(prog: Program, c: ClassInfo, fn, e: ast.expr):
+    """logical reading of an expression built inside a method of operator class c (self is the operator):
+    ('atom', name) | ('not', f) | ('and', f, g) | ('or', f, g) | ('forall'|'exists', var, f) | ('cmp', op-expr-text, exact?)"""
+    m = fn.module
+    orq, andq = prog.cls("symbolic.OR").qual, prog.cls("symbolic.AND").qual
+    notq = prog.cls("symbolic.Not").qual
+
+    def alias(attr: str) -> str:
+        g = prog.lookup(c.qual, attr)
+        if g is not None and g.is_property and not g.is_setter:
+            rets = [n for n in ast.walk(g.node) if isinstance(n, ast.Return) and n.value is not None]
+            if len(rets) == 1 and isinstance(rets[0].value, ast.Attribute) and isinstance(rets[0].value.value, ast.Name) and rets[0].value.value.id == "self":
+                return alias(rets[0].value.attr)
+        return attr
+
+    def go(x):
+        if isinstance(x, ast.Attribute) and isinstance(x.value, ast.Name) and x.value.id == "self":
+            return ("atom", alias(x.attr))
+        if isinstance(x, ast.Name) and x.id == "self":
+            return _meaning(prog, c)
+        if isinstance(x, ast.Call):
+            f = x.func
+            if isinstance(f, ast.Attribute) and f.attr == "_invert_" and not x.args:
+                return ("not", go(f.value))
+            q = m.resolve(f) if isinstance(f, (ast.Name, ast.Attribute)) else None
+            if q in prog.classes:
+                args = [a for a in x.args] + [k.value for k in x.keywords]
+                if prog.is_subclass(q, orq) and len(args) == 2:
+                    return ("or", go(args[0]), go(args[1]))
+                if prog.is_subclass(q, andq) and len(args) == 2:
+                    return ("and", go(args[0]), go(args[1]))
+                if prog.is_subclass(q, notq) and len(args) == 1:
+                    if not (isinstance(args[0], ast.Name) and args[0].id == "self"):
+                        # Not(x) flips x's results (the generic negation) even when x's class negates itself differently
+                        raise _Bypass(src(x))
+                    return ("not", go(args[0]))
+                if prog.classes[q].name in ("ForAll", "Exists") and len(args) == 2:
+                    return ("forall" if prog.classes[q].name == "ForAll" else "exists", go(args[0]), go(args[1]))
+            if q in prog.functions:
+                name = prog.functions[q].name
+                if name in ("and_",) and x.args:
+                    out = go(x.args[0])
+                    for a in x.args[1:]:
+                        out = ("and", out, go(a))
+                    return out
+                if name in ("or_", "optimize_or") and x.args:
+                    out = go(x.args[0])
+                    for a in x.args[1:]:
+                        out = ("or", out, go(a))
+                    return out
+                if name == "not_" and len(x.args) == 1:
+                    return ("not", go(x.args[0]))
+        raise _Uninterpretable(src(x))
+
+    return go(e)
+
+
+def _meaning(prog: Program, c: ClassInfo):
+    orq, andq = prog.cls("symbolic.OR").qual, prog.cls("symbolic.AND").qual
+    if prog.is_subclass(c.qual, orq):
+        return ("or", ("atom", "left"), ("atom", "right"))
+    if prog.is_subclass(c.qual, andq):
+        return ("and", ("atom", "left"), ("atom", "right"))
+    if c.name == "ForAll":
+        return ("forall", ("atom", "left"), ("atom", "right"))
+    if c.name == "Exists":
+        return ("exists", ("atom", "left"), ("atom", "right"))
+    if c.name == "Not":
+        return ("not", ("atom", "_child_"))
+    return ("atom", "self")  # a leaf condition (comparison, predicate, variable)
+
+
+def _atoms(f, acc):
+    if f[0] == "atom":
+        acc.add(f[1])
+    else:
+        for x in f[1:]:
+            if isinstance(x, tuple):
+                _atoms(x, acc)
+    return acc
+
+
+def _holds(f, val, ctx):
+    """val: atom -> (truth under quantified value 0, under value 1); ctx: the value the enclosing quantifier is at"""
+    k = f[0]
+    if k == "atom":
+        return val[f[1]][ctx]
+    if k == "not":
+        return not _holds(f[1], val, ctx)
+    if k == "and":
+        return _holds(f[1], val, ctx) and _holds(f[2], val, ctx)
+    if k == "or":
+        return _holds(f[1], val, ctx) or _holds(f[2], val, ctx)
+    if k == "forall":
+        return all(_holds(f[2], val, i) for i in (0, 1))
+    if k == "exists":
+        return any(_holds(f[2], val, i) for i in (0, 1))
+    raise _Uninterpretable(str(f))
+
+
+def _quantified_over(f):
+    return [x[1] for x in _walk(f) if x[0] in ("forall", "exists")]
+
+
+def _walk(f):
+    yield f
+    for x in f[1:]:
+        if isinstance(x, tuple):
+            yield from _walk(x)
+
+
+def _equivalent(f, g) -> Optional[dict]:
+    """None when f and g agree on every valuation over a two-element model; otherwise a distinguishing valuation"""
+    import itertools
+
+    names = sorted(_atoms(f, set()) | _atoms(g, set()))
+    pairs = [(a, b) for a in (False, True) for b in (False, True)]
+    for combo in itertools.product(pairs, repeat=len(names)):
+        val = dict(zip(names, combo))
+        if _holds(f, val, 0) != _holds(g, val, 0):
+            return val
+    if _quantified_over(f) != _quantified_over(g):
+        return {"quantified expression": f"{_quantified_over(f)} vs {_quantified_over(g)}"}
+    return None
+
+
+def _comparator_flip(prog: Program, c: ClassInfo, inv, v) -> Optional[str]:
+    """A comparator that negates itself by swapping its operation: every swapped pair must be an exact complement.
+    Returns a complaint, '' when fine, None when the expression is not of this shape."""
+    if not (isinstance(v, ast.Call) and inv.module.resolve(v.func) in prog.classes and prog.is_subclass(inv.module.resolve(v.func), prog.cls("symbolic.Comparator").qual)):
+        return None
+    op = v.args[2] if len(v.args) >= 3 else next((k.value for k in v.keywords if k.arg == "operation"), None)
+    if op is None:
+        raise _Uninterpretable(src(v))
+    # the operation argument, through one local assignment
+    if isinstance(op, ast.Name):
+        defs = [x.value for x in ast.walk(inv.node) if isinstance(x, ast.Assign) and any(isinstance(t, ast.Name) and t.id == op.id for t in x.targets)]
+        if len(defs) != 1:
+            raise _Uninterpretable(src(v))
+        op = defs[0]
+    if isinstance(op, ast.Attribute) and isinstance(op.value, ast.Name) and op.value.id == "self":
+        return f"keeps its operation ({src(op)}): the result is the comparison itself, not its negation"
+    tname = None
+    if isinstance(op, ast.Subscript) and isinstance(op.value, ast.Attribute):
+        tname = op.value.attr
+    elif isinstance(op, ast.Call) and isinstance(op.func, ast.Attribute) and op.func.attr == "get" and isinstance(op.func.value, ast.Attribute):
+        tname = op.func.value.attr
+    table = None
+    for cq in prog.mro(c.qual):
+        ci = prog.classes.get(cq)
+        if ci is None or tname is None:
+            continue
+        for st in ci.node.body:
+            tg = st.targets[0] if isinstance(st, ast.Assign) else getattr(st, "target", None)
+            if isinstance(tg, ast.Name) and tg.id == tname and isinstance(getattr(st, "value", None), ast.Dict):
+                table = table or st.value
+    if table is None:
+        raise _Uninterpretable(src(v))
+    bad = []
+    for k, val in zip(table.keys, table.values):
+        a, b = src(k).split(".")[-1], src(val).split(".")[-1]
+        if (a, b) not in EXACT_COMPLEMENTS:
+            bad.append(f"{a} -> {b}")
+    return ("swaps operations that are not complements on partially ordered values (sets, NaN): " + ", ".join(bad)) if bad else ""
+
+
 def _invert_shapes(prog: Program, r: RuleResult):
-    """operators with their own negation: the dual must be built from the negated operands"""
-    orq = prog.cls("symbolic.OR").qual
+    """operators with their own negation: what they return must be logically equivalent to their negation. The returned
+    expression is read as a formula (AND/OR/Not and their builders, x._invert_(), ForAll/Exists) and compared with the negation
+    of the operator's own meaning by truth table over a two-element model (which separates the quantifier duals)."""
     se = prog.cls(SE)
     generic = se.methods.get("_invert_")
     for c in concrete_classes(prog):
@@ -166,26 +359,37 @@ def _invert_shapes(prog: Program, r: RuleResult):
         rets = [n for n in ast.walk(inv.node) if isinstance(n, ast.Return) and n.value is not None]
         raises = [n for n in ast.walk(inv.node) if isinstance(n, ast.Raise)]
         key = f"{c.name}._invert_#dual"
+        where = f"{inv.module.relpath}:{inv.node.lineno}"
         if raises and not rets:
-            r.ok(key, f"{inv.module.relpath}:{inv.node.lineno}", src(raises[0]), "negation is rejected")
+            r.ok(key, where, src(raises[0]), "negation is rejected")
             continue
-        v = rets[0].value if rets else None
-        good = False
-        want = ""
-        if prog.is_subclass(c.qual, orq):
-            want = "AND(self.left._invert_(), self.right._invert_())"
-            good = v is not None and src(v) == want
-        elif c.name == "ForAll":
-            want = "Exists(self.variable, self.condition._invert_())"
-            good = v is not None and src(v) == want
-        elif c.name == "Exists":
-            want = "ForAll(self.variable, self.condition._invert_())"
-            good = v is not None and src(v) == want
-        else:
-            want = "a dual built from negated operands"
-            good = v is not None and "_invert_()" in src(v)
-        r.check(good, key, f"{inv.module.relpath}:{inv.node.lineno}", src(v) if v is not None else "", f"negated as {want}",
-                f"{c.name} negates itself as {src(v) if v is not None else 'nothing'}; the sound dual is {want}")
+        branches = []
+        for ret in rets:
+            todo = [ret.value]
+            while todo:
+                x = todo.pop()
+                if isinstance(x, ast.IfExp):
+                    todo += [x.body, x.orelse]
+                else:
+                    branches.append(x)
+        for v in branches:
+            try:
+                flip = _comparator_flip(prog, c, inv, v)
+                if flip is not None:
+                    r.check(flip == "", key, where, src(v), "every swapped pair of operations is an exact complement",
+                            f"{c.name} negates itself by swapping its operation, and {flip}: not_(a < b) holds for incomparable a, b while a >= b does not, so satisfying assignments are dropped")
+                    continue
+                got = _formula(prog, c, inv, v)
+                want = ("not", _meaning(prog, c))
+                diff = _equivalent(got, want)
+            except _Bypass as ex:
+                r.fail(key, where, src(v), f"{c.name} negates an operand by wrapping it in {ex} instead of asking the operand for its negation (_invert_): an operand that "
+                       f"negates itself differently (a disjunction uses De Morgan because flipping its results is unsound) is negated wrongly")
+                continue
+            except _Uninterpretable as ex:
+                raise AnalysisError(f"EP-NEG: cannot read the negation of {c.name} as a formula ({ex}); extend _formula")
+            r.check(diff is None, key, where, src(v), "the returned expression is equivalent to the negation of the operator (truth table, two-element model)",
+                    f"{c.name} negates itself as {src(v)}, which differs from its negation under {diff}")
 
 
 def _flag_label(fl, s=None) -> str:
@@ -277,8 +481,79 @@ def ep_operand(prog: Program) -> RuleResult:
     return r
 
 
+def ep_universal(prog: Program) -> RuleResult:
+    from ..cfg import CFG
+    from ..callgraph import self_closure
+    from ..astutil import calls_in, call_name, site, is_self_attr
+    from ..model import walk_local
+
+    r = RuleResult("EP-UNIVERSAL", "the universal quantifier checks its condition for every value of the quantified expression", floor=1)
+    c = prog.cls("symbolic.ForAll")
+    f = prog.lookup(c.qual, "_evaluate__")
+    if f is None:
+        raise AnalysisError("EP-UNIVERSAL: ForAll._evaluate__ vanished")
+
+    def is_child_eval(call: ast.Call, roles) -> bool:
+        return call_name(call) == "_evaluate__" and isinstance(call.func, ast.Attribute) and is_self_attr(call.func.value) and call.func.value.attr in roles
+
+    # methods of the class that evaluate the condition (directly, or through other self calls)
+    cond_roles = ("condition", "right")
+    var_roles = ("variable", "left")
+    evaluators = set()
+    for name in {m for q in prog.mro(c.qual) if q in prog.classes for m in prog.classes[q].methods}:
+        m = prog.lookup(c.qual, name)
+        if m is None or m is f:
+            continue
+        seen, _ = self_closure(prog, c.qual, m, False)
+        if any(is_child_eval(x, cond_roles) for g in seen for x in calls_in(g.node)):
+            evaluators.add(name)
+    cfg = CFG(f.node)
+    loops = [n for n in cfg.nodes if n.kind == "for" and any(is_child_eval(x, var_roles) for x in calls_in(n.stmt.iter))]
+    if not loops:
+        raise AnalysisError("EP-UNIVERSAL: ForAll._evaluate__ no longer iterates over the evaluation of its quantified expression")
+    for h in loops:
+        body = {n.id for n in cfg.nodes if h.id in n.loops}
+        checking = set()
+        for i in body:
+            n = cfg.nodes[i]
+            if n.stmt is None:
+                continue
+            for part in cfg._own_parts(n):
+                for x in ast.walk(part):
+                    if isinstance(x, ast.Call) and (is_child_eval(x, cond_roles) or (isinstance(x.func, ast.Attribute) and is_self_attr(x.func) and x.func.attr in evaluators)):
+                        checking.add(i)
+        # a path loop head -> body -> loop head that avoids every checking node
+        bad = None
+        for s0 in [x for x in h.succ if x in body]:
+            if s0 in checking:
+                continue
+            prev = {s0: None}
+            stack = [s0]
+            while stack and bad is None:
+                n = stack.pop()
+                for sx in cfg.nodes[n].succ:
+                    if sx == h.id:
+                        path = [sx]
+                        k = n
+                        while k is not None:
+                            path.append(k)
+                            k = prev[k]
+                        bad = path[::-1]
+                        break
+                    if sx in body and sx not in checking and sx not in prev:
+                        prev[sx] = n
+                        stack.append(sx)
+        r.check(
+            bad is None, f"ForAll._evaluate__#every-value-checked", site(f, h.stmt), src(h.stmt.iter),
+            f"every iteration passes a condition evaluation ({sorted(evaluators)} / direct) before the next value is taken",
+            f"an iteration can return to the loop head along {cfg.describe([h.id] + (bad or []))} without evaluating the condition for that value: "
+            f"rows whose condition fails for a skipped value are returned",
+        )
+    return r
+
+
 def run(prog: Program, tier: str) -> List[RuleResult]:
     from .c03 import domain_cache
 
     _cache.clear()
-    return [ep_thread(prog), ep_neg(prog), ep_filter(prog), ep_operand(prog), domain_cache(prog)]
+    return [ep_thread(prog), ep_neg(prog), ep_filter(prog), ep_operand(prog), domain_cache(prog), ep_universal(prog)]
